@@ -39,6 +39,11 @@ def scenarios(quick):
         for t5 in (5, 6):
             fns = [[fn(1, "R0", "E1", True)] * 2, [fn(1, "R0", "E1", True)] * 2, [fn(d3, "R1", None, True)] * 2, [fn(4, "R1", None, True)] * 2, [fn(1, "R1", None, True)] * 2]
             out.append(scenario([cb("c", rate)], fns, [start(1, 0), start(2, 1), start(3, 4), start(4, t5), start(5, t5 + 1, True)]))
+    # the same protocol at microsecond scale: an open breaker admits nothing until its (sub-millisecond) delay has run out to the last unit
+    for t2 in (1, 2, 3, 4):
+        fns = [[fn(0, "R0", "E1", True)] * 2, [fn(0, "R1", None, True)] * 2, [fn(0, "R1", None, True)] * 2]
+        out.append(scenario([cb("c", brk(1, 1, 3))], fns, [start(1, 0), start(2, t2), start(3, 3, True)], unit_ns=1000))
+        out.append(scenario([retry(1, dly=t2), cb("c", brk(1, 1, 3))], fns, [start(1, 0)], unit_ns=1000))
     # a delay function: the breaker stays open for what the function asks for - when it first opens and when a failed trial re-opens it
     for dfn in (4, 1):
         for t4 in (8, 9, 10):
@@ -73,7 +78,7 @@ def run(ctx):
     tmc.model_check(ctx, "cb", model_scenarios(), ["MC_NoStuckThread", "MC_AllReturn", "MC_C04", "MC_TrialPermits"])
     scs = scenarios(ctx.tier == "quick")
     if ctx.tier == "quick":      # several concurrent executions make validation expensive: every 6th scenario, offset by the seed
-        scs = scs[ctx.seed % 6::6] + scs[-40:]
+        scs = scs[ctx.seed % 6::6] + scs[-48:]
     p_c07.run_family(ctx, "cb", scs, props=("C04",))
     # time-based breakers with a short open delay under retries that wait (sequential machine, direction A): rejected while
     # open, the trial after the delay, re-opening / closing inside one execution and across successive executions
